@@ -749,7 +749,7 @@ func ruleLock9(c *Ctx, r *Reporter) {
 		return false
 	}
 	n := 0
-	allInstrs(begin, func(in ssa.Instruction) {
+	coneInstrs(begin, func(in ssa.Instruction) {
 		if call, ok := in.(*ssa.Call); ok && calleeFull(&call.Call) == pkgDbkit+".Semaphore.Acquire" {
 			n++
 			r.check(fromTomb(call.Call.Args[1]), "Engine.Begin:Acquire cancel channel", c.pos(in.Pos()), "closing the engine cancels the wait for the writer token", "the wait for the writer token does not observe the engine's tomb: a waiter sleeps through Close() for up to the acquisition timeout (and Close can hang on the expiry goroutine)")
